@@ -179,6 +179,11 @@ def gen_case(rng):
         x, y = gen_pair(rng, names, names)
         ls, rs = None, None
         tag = 'common'
+        if rng.random() < 0.35:   # lcols omitted, rcols GIVEN: the shared columns on the left against these names on the right
+            shared = [k for k, _ in x if k in [k2 for k2, _ in y]]
+            q = rng.random()
+            rs = list(shared) if q < 0.6 else list(reversed(shared)) if q < 0.9 else shared[:-1]
+            tag = 'common-rcols-given'
     elif r < 0.7:     # differently named key columns
         rn = ['k', 'm', 'n'][:nk]
         x, y = gen_pair(rng, names, rn)
@@ -755,7 +760,10 @@ def laws(rng, tier, ctx):
             f = Finding('violation', case, 'line 0: ' + d)
             f.line_index = 0
             yield f
-            continue
+            if DROPPED not in d:
+                continue
+            # known finding K1 (a column named like a result key is dropped): every OTHER check passed, and the left-join partition below
+            # does not depend on the dropped column - it is checked on these instances too
         # partition (keyed calls; `v` = 100 + i identifies the rows of x)
         if not sh['cols'] or None in sh['cols'] or 'v' not in sh['x'] or 'v' in sh['cols']:
             continue
@@ -765,6 +773,9 @@ def laws(rng, tier, ctx):
             xo = guarded(lambda: dx.xor(dy, ls, rs))
         except Timeout:
             yield Finding('violation', case, 'join / xor did not return within its time budget')
+            continue
+        if (len(jn) and 'v' not in jn.keys()) or (len(xo) and 'v' not in xo.keys()):
+            yield Finding('violation', case, 'x*y / x/y lost the non-key column v of x')
             continue
         inj = Counter(jn['v']) if len(jn) else Counter()
         inx = Counter(xo['v']) if len(xo) else Counter()
